@@ -121,6 +121,9 @@ def tasks(tier):
                    durs=[0, 3], dur_free=True, inject=["cancel"], sleeper="call", sleeper_async=True,
                    before_sleep="call", bs_async=bs, max_unknown=None)
         out.append({"family": "async-loop-cancel", "cfg": cfg, "entry": e, "bound": 1, "weight": 5})
+        if at is not None and bs:
+            out.append({"family": "async-loop-cancel", "cfg": dict(cfg, unwind_ticks=1), "entry": e,
+                        "bound": 1, "weight": 5})
     # sync attempt timeout (owned executor): cancellation-type exceptions still propagate
     for e in Q4[:2] + POL[:2]:
         cfg = dict(M=3, alphabet=ALPHA, abort=True, attempt_timeout=2, durs=[0, 3], dur_free=True,
